@@ -65,8 +65,8 @@ STORE_RULE = ("random histories on the real Store driven deterministically (main
               "quarter of the cases; non-trivial = case with >= 3 steps; distinct = sha1 of the recorded case")
 STORE_TB = [KERNEL, EXTRACT, HARNESS, "hooks H1 (virtual clock) and H7 (controllable Fastrand)",
             "modelled, not verified: one logical shard map (shard choice = hash & mask is not observable sequentially); the event channel as a list "
-            "whose delivery order the harness chooses; atomic maintenance operations (an API section interleaving inside removeEntry is "
-            "covered by the stale-visit operation only); entry pool off; float32 climb amount and doorkeeper verdict are inputs",
+            "whose delivery order the harness chooses; atomic maintenance operations (an API section interleaving inside removeEntry: before the deadline re-check it is the "
+            "stale-visit operation; after it the code now decides and unlinks under the shard lock - fix e4bd381 - and TestVerifExpireOverlap / TestVerifEvictOverlap exercise the overlap); entry pool off; float32 climb amount and doorkeeper verdict are inputs",
             "Go runtime: sync.Mutex as a lock, channels, goroutine scheduling; the shard lock RBMutex is modelled per atomic operation and proved exclusive (C19), the striped hit/miss counters likewise (C16)"]
 
 def store_prop(files, codes, tags, expl, assumptions=None):
@@ -85,13 +85,14 @@ PROPS["C02"] = store_prop(["Props/C02.v"], ["3", "4", "6", "7", "11"], ["C02"],
 PROPS["C05"] = store_prop(["Props/C05.v"], ["3", "4", "11"], ["C05"],
     "conservation law entries stored = resident + deletes in flight + notifications over all histories and delivery orders (Proof/StoreInv.v); listener log of the model vs the real removal listener, per delivered event and per tick",
     ["entry pool disabled, no secondary cache (demotion to a secondary cache is not a removal)", "Close is excluded: it empties the map without notifications by design"])
-PROPS["C05"]["go_tests"] = ["TestVerifStore", "TestVerifEvictOverlap"]
-PROPS["C05"]["impl_only_traces"] = ["evictoverlap"]
+PROPS["C05"]["go_tests"] = ["TestVerifStore", "TestVerifEvictOverlap", "TestVerifExpireOverlap"]
+PROPS["C05"]["impl_only_traces"] = ["evictoverlap", "expireoverlap"]
 PROPS["C05"]["rule"] = STORE_RULE + ("; plus evictions that wait for a shard lock while the entry is overwritten in place inside that critical section (the harness holds the lock, "
                                      "waits until the evicting goroutine is parked inside removeEntry, overwrites with the store's own setShardWithoutLock, releases): the listener must be told the value the entry left with")
 PROPS["C06"] = store_prop(["Props/C06.v"], ["0", "1", "8", "3", "4", "11"], ["C06"],
     "Set/loader admission rules over the store model; Set results, immediate visibility and removal reasons compared with the real Store")
-PROPS["C06"]["go_tests"] = ["TestVerifStore", "TestVerifDoorkeeper"]
+PROPS["C06"]["go_tests"] = ["TestVerifStore", "TestVerifDoorkeeper", "TestVerifExpireOverlap"]
+PROPS["C06"]["impl_only_traces"] = ["expireoverlap"]
 PROPS["C06"]["rule"] = STORE_RULE + ("; plus the doorkeeper of one shard of a real Store (Doorkeeper on, no capacity pressure): 100..2600 Sets of non-resident keys of that shard (first and "
                                      "repeated sightings in three mixes that drive the reset counter past the filter capacity and grow the shard map past the filter's capacity), deletes, "
                                      "overwrites and Exist probes; verdict, reset counter, map size, filter capacity / bits / probes and the number of bits set compared after every operation")
@@ -328,8 +329,8 @@ PROPS["C01"]["rule"] = STORE_RULE + "; plus, for the entry-pool configurations (
 PROPS["C01"]["assumptions"] = ["the theorems cover the entry pool disabled; with the pool enabled the property is exercised by monitors only: a concurrent harness ('never a value of another key') and the deterministic store histories re-run with the pool on (TestVerifStorePool: every value read is the latest write of its key)"]
 
 # store-level part of C04 / C03: ticks and reads of the real Store under the deterministic driver
-PROPS["C04"]["go_tests"] = ["TestVerifWheel", "TestVerifStore", "TestVerifPersist", "TestVerifMaintenanceSurvivesBusyLock"]
-PROPS["C04"]["impl_only_traces"] = ["busylock"]
+PROPS["C04"]["go_tests"] = ["TestVerifWheel", "TestVerifStore", "TestVerifPersist", "TestVerifMaintenanceSurvivesBusyLock", "TestVerifExpireOverlap"]
+PROPS["C04"]["impl_only_traces"] = ["busylock", "expireoverlap"]
 PROPS["C04"]["env"] = {"VERIF_PERSIST": "restore-only"}
 PROPS["C04"]["project_codes"] = {"store": ["4", "11"]}
 PROPS["C04"]["monitor_tags"] = ["C04"]
